@@ -22,13 +22,11 @@ def store (m : IModel) : Store := fun i => m.doms.getD i [0]
 def bools (m : IModel) : List Nat := m.ps.flatMap PK.boolVars
 
 /-- well-formed model: non-empty domains, statically well-formed checked propagators, boolean
-variables declared with domains ⊆ {0,1}, and the store precondition of the kinds that have one
-(`modulo`: non-negative dividend, positive divisor, no boundary sampling) on the declared domains -/
+variables declared with domains ⊆ {0,1} (no kind has a store precondition any more) -/
 structure WF (m : IModel) : Prop where
   ne : ∀ d ∈ m.doms, d ≠ []
   wfs : ∀ k ∈ m.ps, k.WFs
   bool : BoolStore m.bools m.store
-  ok : ∀ k ∈ m.ps, k.StoreOk m.store
 
 /-- `a` satisfies the model -/
 def IsSol (m : IModel) (a : Asg) : Prop := Mem m.store a ∧ ∀ k ∈ m.ps, PK.holds a k = true
@@ -50,19 +48,19 @@ theorem allContract (m : IModel) (h : m.WF) : AllContract m.ps (StoreInv m.ps) :
 
 /-- the invariant holds on the declared domains -/
 theorem inv_root (m : IModel) (h : m.WF) : StoreInv m.ps m.store :=
-  ⟨m.store_ne h, h.bool, h.ok⟩
+  ⟨m.store_ne h, h.bool⟩
 
-/-- the former, stronger notion: `WFk` asks `modulo`'s store precondition on every store -/
+/-- `WFk` is the same static well-formedness under its older name -/
 theorem wf_of_wfk (m : IModel) (ne : ∀ d ∈ m.doms, d ≠ []) (wfk : ∀ k ∈ m.ps, k.WFk)
     (bool : BoolStore m.bools m.store) : m.WF :=
-  ⟨ne, fun k hk => PK.wfs_of_wfk k (wfk k hk), bool, fun k hk => PK.storeOk_of_wfk k (wfk k hk) _⟩
+  ⟨ne, fun k hk => PK.wfs_of_wfk k (wfk k hk), bool⟩
 
 /-- the root node after the initial propagation -/
 theorem root_node (m : IModel) (h : m.WF) (pol : Policy) (fuel : Nat) (st' : Store)
     (hpr : propagate m.ps pol fuel (List.range m.ps.length) m.store = .ok st') :
     Node m.n (StoreInv m.ps) m.ps st' ∧ ∀ i, (st' i).Sublist (m.store i) := by
   have hc := m.allContract h
-  have hP := closed_storeInv m.ps h.wfs
+  have hP := closed_storeInv m.ps
   obtain ⟨hsub, hne⟩ := propagate_shrinks _ pol _ hc _ _ _ _ hpr
   exact ⟨⟨hc, propagate_inv _ pol _ hP hc _ _ _ _ (m.inv_root h) hpr, hne (m.store_ne h),
           tail_of_sub m.store_tail hsub (hne (m.store_ne h)),
@@ -104,7 +102,7 @@ theorem search_sound (m : IModel) (h : m.WF) (obj : Option IView) (hobj : ∀ o,
     | some pv =>
       rw [hfu] at hv
       simp only at hv
-      have hl := ((search_leaf m.n obj pol _ (closed_storeInv m.ps h.wfs) hobj fuel).1 _ _ _ v hn hv).holds
+      have hl := ((search_leaf m.n obj pol _ (closed_storeInv m.ps) hobj fuel).1 _ _ _ v hn hv).holds
       obtain ⟨stL, e, hf, hs, _, hh⟩ := hl
       refine ⟨asgOf stL, ?_, ?_, hh⟩
       · rw [e]; exact solOf_eq_proj hf (allFixed_mem hf)
@@ -116,7 +114,7 @@ theorem search_complete_enum (m : IModel) (h : m.WF) (pol : Policy) (fuel : Nat)
     proj m.n a ∈ (search m.n none pol fuel m.ps m.store).solutions := by
   rw [solutions_eq, mem_evsSols]
   unfold search at hfuel ⊢
-  have hs := propagate_sound m.ps pol _ (closed_storeInv m.ps h.wfs) (m.allContract h) a ha.2 fuel
+  have hs := propagate_sound m.ps pol _ (closed_storeInv m.ps) (m.allContract h) a ha.2 fuel
     (List.range m.ps.length) m.store (m.inv_root h) ha.1
   cases hpr : propagate m.ps pol fuel (List.range m.ps.length) m.store with
   | fail => rw [hpr] at hs; exact hs.elim
@@ -133,7 +131,7 @@ theorem search_complete_enum (m : IModel) (h : m.WF) (pol : Policy) (fuel : Nat)
     | some pv =>
       rw [hfu] at hfuel
       simp only at hfuel ⊢
-      have := (search_complete m.n none pol _ (closed_storeInv m.ps h.wfs) (fun _ h => by cases h)
+      have := (search_complete m.n none pol _ (closed_storeInv m.ps) (fun _ h => by cases h)
         (fun _ h => by cases h) a fuel).1 m.ps st' none hn (by rw [hfu]; rfl) hs.1 ha.2 hfuel
       rcases this with h | ⟨o, _, ho, _⟩
       · exact h
@@ -154,7 +152,7 @@ theorem search_nodup' (m : IModel) (h : m.WF) (obj : Option IView) (hobj : ∀ o
     | none => simp [evsSols]
     | some pv =>
       simp only
-      exact (search_nodup m.n obj pol _ (closed_storeInv m.ps h.wfs) hobj fuel).1 _ _ _ hn
+      exact (search_nodup m.n obj pol _ (closed_storeInv m.ps) hobj fuel).1 _ _ _ hn
 
 /-- **branch and bound**: the objective values of the yielded assignments strictly decrease and
 the last one is a lower bound for every solution -/
@@ -176,7 +174,7 @@ theorem search_optimal (m : IModel) (h : m.WF) (o : IView) (ho : o.WF)
     | fail =>
       refine ⟨none, Decr.nil _, ?_⟩
       intro a ha
-      have hs := propagate_sound m.ps pol _ (closed_storeInv m.ps h.wfs) (m.allContract h) a ha.2 fuel
+      have hs := propagate_sound m.ps pol _ (closed_storeInv m.ps) (m.allContract h) a ha.2 fuel
         (List.range m.ps.length) m.store (m.inv_root h) ha.1
       rw [hpr] at hs; exact hs.elim
     | fuel => rw [hpr] at hfuel; cases hfuel
@@ -186,7 +184,7 @@ theorem search_optimal (m : IModel) (h : m.WF) (o : IView) (ho : o.WF)
       obtain ⟨hn, hsub⟩ := m.root_node h pol fuel st' hpr
       have hsa : ∀ a, m.IsSol a → Mem st' a := by
         intro a ha
-        have hs := propagate_sound m.ps pol _ (closed_storeInv m.ps h.wfs) (m.allContract h) a ha.2 fuel
+        have hs := propagate_sound m.ps pol _ (closed_storeInv m.ps) (m.allContract h) a ha.2 fuel
           (List.range m.ps.length) m.store (m.inv_root h) ha.1
         rw [hpr] at hs; exact hs.1
       cases hfu : firstUnassigned m.n st' with
@@ -203,11 +201,11 @@ theorem search_optimal (m : IModel) (h : m.WF) (o : IView) (ho : o.WF)
       | some pv =>
         rw [hfu] at hfuel
         simp only at hfuel ⊢
-        have hd := (search_decr m.n (some o) pol _ (closed_storeInv m.ps h.wfs) hobj hon' fuel).1 m.ps st' none hn
+        have hd := (search_decr m.n (some o) pol _ (closed_storeInv m.ps) hobj hon' fuel).1 m.ps st' none hn
         simp only [objVals] at hd
         refine ⟨_, hd, ?_⟩
         intro a ha
-        have := (search_complete m.n (some o) pol _ (closed_storeInv m.ps h.wfs) hobj hon' a fuel).1
+        have := (search_complete m.n (some o) pol _ (closed_storeInv m.ps) hobj hon' a fuel).1
           m.ps st' none hn (by rw [hfu]; rfl) (hsa a ha) ha.2 hfuel
         rcases this with hmem | ⟨o', mm, e, hb, hle⟩
         · have hx : evalL o (proj m.n a) ∈ (evsSols (explore m.n (some o) pol fuel m.ps st' none).evs).map (evalL o) :=
@@ -284,7 +282,7 @@ theorem search_terminates (m : IModel) (h : m.WF) (hnd : ∀ d ∈ m.doms, d.Nod
     | none => rfl
     | some pv =>
       simp only
-      apply (explore_terminates m.n obj pol _ (closed_storeInv m.ps h.wfs) hobj fuel).1 _ _ _ hn
+      apply (explore_terminates m.n obj pol _ (closed_storeInv m.ps) hobj fuel).1 _ _ _ hn
         (nodupS_of_sub (m.store_nodup hnd) hsub)
       have := @needE_mono m.ps.length m.ps.length (sizeN m.n st') (sizeN m.n m.store) (Nat.le_refl _) (sizeN_mono m.n hsub)
       omega
